@@ -222,7 +222,18 @@ def stuck_on_line(tt, p, src, d):
         else:
             import fteikpy._fteik._ray3d as M
             ray, count = M._ray3d_core(tt.zaxis, tt.xaxis, tt.yaxis, g[0].grid, g[1].grid, g[2].grid, p[0], p[1], p[2], src[0], src[1], src[2], float(min(d)), ms, True)
-        return bool(ms >= 4 and np.array_equal(ray[ms - 1], ray[ms - 2]) and np.array_equal(ray[ms - 2], ray[ms - 3]))
+        if not (ms >= 4 and np.array_equal(ray[ms - 1], ray[ms - 2]) and np.array_equal(ray[ms - 2], ray[ms - 3])):
+            return False
+        # F15 is specific: the stuck vertex lies on the hull boundary of some axis and the interpolated gradient
+        # there points out of the grid along that axis (the step -delta would leave the hull, so the shrink factor
+        # is 0).  A ray stuck anywhere else is not this finding.
+        v = np.array(ray[ms - 1], dtype=float)
+        axes = [tt.zaxis, tt.xaxis] + ([tt.yaxis] if nd == 3 else [])
+        gv = [float(g[a](v)) for a in range(nd)]
+        for a in range(nd):
+            if (v[a] == axes[a][0] and gv[a] > 0) or (v[a] == axes[a][-1] and gv[a] < 0):
+                return True
+        return False
     except Exception:  # noqa: BLE001
         return False
 
